@@ -111,7 +111,7 @@ pub fn generate(seed: u64, tier: Tier) -> HandoverPlan {
     }
 }
 
-fn config_requests(p: &HandoverPlan) -> Vec<Request> {
+pub fn config_requests(p: &HandoverPlan) -> Vec<Request> {
     let mut v: Vec<Request> = Vec::new();
     for l in &p.listeners {
         v.push(RequestType::AddHttpListener(ListenerBuilder::new_http((*l).into()).to_http(None).unwrap()).into());
